@@ -463,6 +463,12 @@ def _literal_table(v: ast.AST) -> Optional[List[List[ast.AST]]]:
     return rows
 
 
+def _dict_rows(d: ast.AST) -> Optional[List[List[ast.AST]]]:
+    if isinstance(d, ast.Dict) and d.keys and len(d.keys) <= 24 and all(k is not None and _pure_cell(k) for k in d.keys) and all(_pure_cell(v) for v in d.values):
+        return [[k, v] for k, v in zip(d.keys, d.values)]
+    return None
+
+
 def _fuse_nested(node):
     """(E(x) for x in (y for y in S if P(y)) if Q(x))  ->  (E(x) for x in S if P(x) if Q(x)): a pass over a pure filter is a filtered pass.  Likewise over a
     list comprehension or a list()/tuple() of the filter (nothing else reads the intermediate sequence)."""
@@ -925,6 +931,11 @@ class Desugar(ast.NodeTransformer):
             return self.tables.get(it.attr)
         if isinstance(it, (ast.Tuple, ast.List)):
             return _literal_table(it)
+        # D.items() of a dict display of pure cells (a local or module-level dispatch dict): rows (key, value) in insertion order
+        if isinstance(it, ast.Call) and isinstance(it.func, ast.Attribute) and it.func.attr == 'items' and not it.args and isinstance(it.func.value, ast.Name):
+            return local_tables.get(it.func.value.id + '.items()') or self.tables.get(it.func.value.id + '.items()')
+        if isinstance(it, ast.Call) and isinstance(it.func, ast.Attribute) and it.func.attr == 'items' and not it.args and isinstance(it.func.value, ast.Dict):
+            return _dict_rows(it.func.value)
         return None
 
     def _d3f(self, node):
@@ -1552,6 +1563,9 @@ class Desugar(ast.NodeTransformer):
                 rows = _literal_table(st.value)
                 if rows is not None:
                     local_tables[st.targets[0].id] = rows
+                drows = _dict_rows(st.value)
+                if drows is not None and getattr(self, 'stores', None) is not None and self.stores.get(st.targets[0].id, 0) == 1:
+                    local_tables[st.targets[0].id + '.items()'] = drows
             # D3d: for x in (*A, *B): body   ->  for x in A: body ; for x in B: body     (no break, no else)
             if isinstance(st, ast.For) and not st.orelse and isinstance(st.iter, (ast.Tuple, ast.List)) and len(st.iter.elts) >= 2 \
                     and all(isinstance(x, ast.Starred) for x in st.iter.elts) and not any(isinstance(x, ast.Break) for b in st.body for x in ast.walk(b)):
@@ -2015,10 +2029,16 @@ def desugar(tree: ast.Module) -> ast.Module:
             rows = _literal_table(st.value)
             if rows is not None:
                 tables[st.targets[0].id] = rows
+            drows = _dict_rows(st.value)
+            if drows is not None:
+                tables[st.targets[0].id + '.items()'] = drows
         if isinstance(st, ast.AnnAssign) and isinstance(st.target, ast.Name) and st.value is not None:
             rows = _literal_table(st.value)
             if rows is not None:
                 tables[st.target.id] = rows
+            drows = _dict_rows(st.value)
+            if drows is not None:
+                tables[st.target.id + '.items()'] = drows
         if isinstance(st, ast.ClassDef):
             for s2 in st.body:
                 if isinstance(s2, ast.Assign) and len(s2.targets) == 1 and isinstance(s2.targets[0], ast.Name):
@@ -2204,12 +2224,32 @@ def alias_paths_nested(tree: ast.AST, computed=frozenset()) -> ast.AST:
                     for i, st in enumerate(blk):
                         if not (isinstance(st, ast.Assign) and len(st.targets) == 1 and isinstance(st.targets[0], ast.Name)):
                             continue
+                        # a display / dict of plain cells that nothing reads any more (a dispatch table that was unrolled)
+                        if isinstance(st.value, (ast.Dict, ast.Tuple, ast.List)) and loads.get(st.targets[0].id, 0) == 0 and stores.get(st.targets[0].id, 0) == 1 \
+                                and st.targets[0].id not in params and st.targets[0].id not in nested and len(blk) > 1 and (
+                                    _dict_rows(st.value) is not None or (isinstance(st.value, (ast.Tuple, ast.List)) and all(_pure_cell(e) or (
+                                        isinstance(e, (ast.Tuple, ast.List)) and all(_pure_cell(c) for c in e.elts)) for e in st.value.elts))):
+                            del blk[i]
+                            changed = True
+                            break
                         pth = _attr_path(st.value)
                         if pth is None and isinstance(st.value, ast.Subscript) and isinstance(st.value.value, ast.Name) and isinstance(st.value.slice, ast.Constant) \
                                 and isinstance(st.value.slice.value, str) \
                                 and not any(isinstance(x, ast.Subscript) and isinstance(x.ctx, (ast.Store, ast.Del)) and isinstance(x.value, ast.Name)
                                             and x.value.id == st.value.value.id for x in ast.walk(fn)):
                             pth = st.value.value.id          # tok['name']: as stable as the name it indexes (no item of it is assigned in the function)
+                        if pth is None and isinstance(st.value, ast.Name) and st.value.id != st.targets[0].id and st.value.id not in nested \
+                                and not any(isinstance(x, ast.Name) and x.id == st.value.id and isinstance(x.ctx, (ast.Store, ast.Del)) for s_ in blk[i + 1:] for x in ast.walk(s_)):
+                            # v = w: a second name for a local that is not re-bound while v is read (the exit assignment of an expanded helper)
+                            v = st.targets[0].id
+                            later = sum(1 for s_ in blk[i + 1:] for x in ast.walk(s_) if isinstance(x, ast.Name) and x.id == v and isinstance(x.ctx, ast.Load))
+                            if v not in params and v not in nested and stores.get(v, 0) == 1 and later and later == loads.get(v, 0):
+                                sub = _PathSubst(v, st.value)
+                                blk[i + 1:] = [sub.visit(s_) for s_ in blk[i + 1:]]
+                                del blk[i]
+                                changed = True
+                                break
+                            continue
                         if pth is None:
                             continue
                         v = st.targets[0].id
